@@ -2,7 +2,8 @@
    Model of wrappers/desktop.go, function by function: isValidDesktopFileLine (the alternatives come from
    gen/DesktopRegexes.v), rewriteExecLine, rewriteIconLine, sanitizeDesktopFile; snap.JoinSnapApp / InstanceName /
    AppInfo.WrapperPath (snap/info.go). bufio.Scanner + ScanLines is modelled by split_lines/drop_cr (the 64 KiB token
-   limit is not modelled). No proofs in this file. *)
+   limit is not modelled). quoteExecArg and the per-file part of deriveDesktopFilesContent (glob suffix, control-character
+   skip, installed name) are modelled too. No proofs in this file. *)
 From Coq Require Import List NArith Bool.
 Import ListNotations.
 Require Import V.lib.Bytes V.lib.Regex V.gen.DesktopRegexes.
@@ -69,9 +70,24 @@ Definition valid_line (line : bytes) : bool := existsb (fun r => rmatch r line) 
 (* ------------------------------------------------------------------------------------------ rewriteExecLine *)
 Definition lit_exec : bytes := [69; 120; 101; 99; 61].                       (* Exec= *)
 Definition lit_icon : bytes := [73; 99; 111; 110; 61].                       (* Icon= *)
-Definition lit_env : bytes :=                                                (* env BAMF_DESKTOP_FILE_HINT= *)
-  [101;110;118;32;66;65;77;70;95;68;69;83;75;84;79;80;95;70;73;76;69;95;72;73;78;84;61].
-Definition exec_env (df : bytes) : bytes := lit_env ++ df ++ [32].
+Definition lit_env : bytes := [101; 110; 118; 32].                             (* env followed by a space *)
+Definition lit_hint : bytes :=                                               (* BAMF_DESKTOP_FILE_HINT= *)
+  [66;65;77;70;95;68;69;83;75;84;79;80;95;70;73;76;69;95;72;73;78;84;61].
+
+(* quoteExecArg: % doubled; if a reserved byte occurs, the argument is put in double quotes with a backslash in front
+   of the four bytes double-quote, backquote, dollar, backslash *)
+Definition pdouble (a : bytes) : bytes := flat_map (fun c => if c =? 37 then [37; 37] else [c]) a.
+Definition reserved : bytes :=                 (* space tab newline dquote quote backslash > < ~ | & ; $ * ? # ( ) backquote *)
+  [32; 9; 10; 34; 39; 92; 62; 60; 126; 124; 38; 59; 36; 42; 63; 35; 40; 41; 96].
+Definition is_reserved (c : N) : bool := existsb (N.eqb c) reserved.
+Definition esc (c : N) : bytes :=
+  if (c =? 34) || (c =? 96) || (c =? 36) || (c =? 92) then [92; c] else [c].
+Definition esc_all (a : bytes) : bytes := flat_map esc a.
+Definition quote_exec_arg (arg : bytes) : bytes :=
+  let a := pdouble arg in
+  if negb (existsb is_reserved a) then a else [34] ++ esc_all a ++ [34].
+
+Definition exec_env (df : bytes) : bytes := lit_env ++ quote_exec_arg (lit_hint ++ df) ++ [32].
 
 Definition valid_cmd (i : dinfo) (app : bytes) : bytes :=
   if is_nil_b (d_key i) then base (wrapper i app) else join_snap_app (d_snap i) [] app.
@@ -162,18 +178,47 @@ Definition sanitize (i : dinfo) (df content : bytes) : bytes :=
   flat_map (fun l => l ++ [10]) (sanitize_lines i df (map drop_cr (split_lines content))).
 
 (* ------------------------------------------------------------------------------------------ how the line is launched *)
-(* word splitting of the Exec value at spaces (quoting is not modelled), then env(1): skip NAME=VALUE words *)
-Definition words (s : bytes) : list bytes := filter (fun w => negb (is_nil_b w)) (split_all 32 s).
+(* Desktop Entry specification, "The Exec key": arguments are separated by spaces; an argument that starts with a
+   double quote runs to the closing double quote, and inside it a backslash makes the next byte literal; %% stands for
+   a literal percent sign. twords splits the value into arguments (quotes removed, escapes resolved). Then env(1): skip
+   NAME=VALUE words; the first other word is the program. *)
+Inductive tst := TSpace | TWord | TQuote | TQuoteEsc.
+
+Fixpoint twords (st : tst) (acc : bytes) (s : bytes) : list bytes :=
+  match s with
+  | [] => match st with TSpace => [] | _ => [rev acc] end
+  | c :: r =>
+      match st with
+      | TSpace => if c =? 32 then twords TSpace [] r
+                  else if c =? 34 then twords TQuote [] r
+                  else twords TWord [c] r
+      | TWord => if c =? 32 then rev acc :: twords TSpace [] r else twords TWord (c :: acc) r
+      | TQuote => if c =? 34 then rev acc :: twords TSpace [] r
+                  else if c =? 92 then twords TQuoteEsc acc r
+                  else twords TQuote (c :: acc) r
+      | TQuoteEsc => twords TQuote (c :: acc) r
+      end
+  end.
+
+Fixpoint unpercent (w : bytes) : bytes :=
+  match w with
+  | c :: r => match r with
+              | d :: r' => if (c =? 37) && (d =? 37) then 37 :: unpercent r' else c :: unpercent r
+              | [] => [c]
+              end
+  | [] => []
+  end.
+
 Definition is_assignment (w : bytes) : bool := existsb (N.eqb 61) w.
 Fixpoint env_program (ws : list bytes) : option bytes :=
   match ws with
   | [] => None
   | w :: r => if is_assignment w then env_program r else Some w
   end.
-(* the program that runs when the desktop environment launches an Exec= line of the form Exec=env ... *)
+(* the program that runs when the desktop environment launches an Exec= line *)
 Definition launched (exec_line : bytes) : option bytes :=
-  match words (after_eq exec_line) with
-  | w :: r => if beq w [101; 110; 118] then env_program r else Some w
+  match twords TSpace [] (after_eq exec_line) with
+  | w :: r => option_map unpercent (if beq w [101; 110; 118] then env_program r else Some w)
   | [] => None
   end.
 
@@ -242,16 +287,41 @@ Definition spec_line_alts : list regex := [
 Definition spec_valid_line (line : bytes) : bool := existsb (fun r => rmatch r line) spec_line_alts.
 
 (* ------------------------------------------------------------------------------------------ correspondence *)
-(* observed: the bytes sanitizeDesktopFile returned *)
-Inductive case := Case (i : dinfo) (df content : bytes) (out : bytes).
+(* deriveDesktopFilesContent for one file of meta/gui: only names matching the glob *.desktop are read; a name with a
+   control character (unicode.IsControl: U+0000-001F, U+007F-009F, the latter also as the UTF-8 pairs C2 80..C2 9F) is
+   skipped; the installed name is <dir>/<DesktopPrefix>_<name> *)
+Fixpoint has_control (s : bytes) : bool :=
+  match s with
+  | [] => false
+  | c :: r => (c <? 32) || (c =? 127) ||
+              (match r with d :: _ => (c =? 194) && (128 <=? d) && (d <=? 159) | [] => false end) || has_control r
+  end.
+Definition lit_dot_desktop : bytes := [46;100;101;115;107;116;111;112].      (* .desktop *)
+Definition has_suffix (suf s : bytes) : bool := has_prefix (rev suf) (rev s).
+Definition desktop_prefix (i : dinfo) : bytes := if is_nil_b (d_key i) then d_snap i else d_snap i ++ [43] ++ d_key i.
+Definition installed_name (i : dinfo) (dir file : bytes) : bytes := dir ++ [47] ++ desktop_prefix i ++ [95] ++ file.
+Definition derive_one (i : dinfo) (dir file content : bytes) : option bytes :=
+  if negb (has_suffix lit_dot_desktop file) then None
+  else if has_control file then None
+  else Some (sanitize i (installed_name i dir file) content).
+
+(* observed: what deriveDesktopFilesContent produced for the file (None: no entry for it) *)
+Inductive case := Case (i : dinfo) (dir file content : bytes) (out : option bytes).
 
 Definition mismatch (c : case) : bool :=
-  match c with Case i df content out => negb (beq (sanitize i df content) out) end.
+  match c with
+  | Case i dir file content out =>
+      negb (match derive_one i dir file content, out with
+            | Some a, Some b => beq a b
+            | None, None => true
+            | _, _ => false
+            end)
+  end.
 
 (* monitor on the observed output only: every output line is allowlisted (the pinned specification list) or
-   the instance line; every Exec= line starts with Exec=env BAMF_DESKTOP_FILE_HINT= and, as launched, runs the wrapper
+   the instance line; every Exec= line starts with Exec=env and, as launched (quoting-aware), runs the wrapper
    of one of the snap's apps; a [Desktop Entry] line is followed by the instance line *)
-Definition exec_ok (i : dinfo) (df l : bytes) : bool :=
+Definition exec_ok (i : dinfo) (l : bytes) : bool :=
   has_prefix (lit_exec ++ lit_env) l &&
   existsb (fun app => match launched l with Some prog => beq prog (wrapper i app) | None => false end) (d_apps i).
 
@@ -264,9 +334,10 @@ Fixpoint tagged_ok (i : dinfo) (ls : list bytes) : bool :=
 
 Definition monitor_fail (c : case) : bool :=
   match c with
-  | Case i df content out =>
+  | Case i dir file content None => false
+  | Case i dir file content (Some out) =>
       let ls := split_lines out in
       negb (forallb (fun l => (spec_valid_line l || beq l (xsnap_line i)) &&
-                              (if has_prefix lit_exec l then exec_ok i df l else true)) ls
+                              (if has_prefix lit_exec l then exec_ok i l else true)) ls
             && tagged_ok i ls)
   end.
